@@ -14,6 +14,13 @@ class score_from_ballot_scores:
     forall = dict(x=Str)
     locals = dict(scores=Dict(Real))
 
+    def witnesses():
+        from votekit.ballot import Ballot
+        from votekit.pref_profile import PreferenceProfile
+        p = PreferenceProfile(ballots=(Ballot(scores={"A": 2, "B": Fraction(1, 2)}, weight=Fraction(3)), Ballot(scores={"B": 1}, weight=Fraction(1, 2))),
+                              candidates=("A", "B", "C"))
+        return [dict(profile=p, to_float=False, x="B"), dict(profile=p, to_float=False, x="C")]
+
     def requires(profile, to_float):
         return not to_float and scored_listed(profile.ballots, len(profile.ballots), frozenset(profile.candidates))
 
@@ -44,6 +51,14 @@ class mentions_c:
     returns = Dict(Real)
     forall = dict(x=Str)
     locals = dict(mentions=Dict(Real))
+
+    def witnesses():
+        from votekit.ballot import Ballot
+        from votekit.pref_profile import PreferenceProfile
+        A, B, C = frozenset("A"), frozenset("B"), frozenset("C")
+        p = PreferenceProfile(ballots=(Ballot(ranking=(A, B), weight=Fraction(3)), Ballot(ranking=(frozenset("BC"),), weight=Fraction(1, 2)),
+                                       Ballot(ranking=(A, B), weight=Fraction(2))), candidates=("A", "B", "C"))
+        return [dict(profile=p, to_float=False, x="B"), dict(profile=p, to_float=False, x="C")]
 
     def requires(profile, to_float):
         return not to_float and ranked_listed(profile.ballots, len(profile.ballots), frozenset(profile.candidates))
@@ -82,6 +97,15 @@ class add_missing_cands_c:
     returns = Profile
     forall = dict(k=Seq(CSet), sv=Seq(Real), x=Str)
     locals = dict(new_ballots=Seq(Ballot, "list"), candidates=CSet)
+
+    def witnesses():
+        from votekit.ballot import Ballot
+        from votekit.pref_profile import PreferenceProfile
+        A, B, C = frozenset("A"), frozenset("B"), frozenset("C")
+        p = PreferenceProfile(ballots=(Ballot(ranking=(A, B), weight=Fraction(3)), Ballot(ranking=(frozenset("BC"),), weight=Fraction(1, 2)),
+                                       Ballot(ranking=(A, B), weight=Fraction(2))), candidates=("A", "B", "C"))
+        return [dict(profile=p, k=(A, B, frozenset("C")), sv=(Fraction(3), Fraction(2), Fraction(1)), x="C"),
+                dict(profile=p, k=(frozenset("BC"), A), sv=(Fraction(1), Fraction(0)), x="B")]
 
     def raises_TypeError(profile):
         return not all_ranked(profile.ballots, len(profile.ballots))
@@ -124,6 +148,15 @@ class score_from_rankings:
                 # ranked ballots are well-formed: non-empty positions, listed candidates only (else the real code raises TypeError / KeyError)
                 and implies(all_ranked(profile.ballots, len(profile.ballots)),
                             all_rk_ok(profile.ballots, len(profile.ballots), frozenset(profile.candidates))))
+
+    def witnesses():
+        from votekit.ballot import Ballot
+        from votekit.pref_profile import PreferenceProfile
+        A, B, C = frozenset("A"), frozenset("B"), frozenset("C")
+        p = PreferenceProfile(ballots=(Ballot(ranking=(A, B), weight=Fraction(3)), Ballot(ranking=(frozenset("BC"),), weight=Fraction(1, 2)),
+                                       Ballot(ranking=(A, B), weight=Fraction(2))), candidates=("A", "B", "C"))
+        return [dict(profile=p, score_vector=[Fraction(3), Fraction(2), Fraction(1)], to_float=False, x="B"),
+                dict(profile=p, score_vector=[Fraction(1)], to_float=False, x="C")]
 
     def raises_ValueError(profile, score_vector, to_float):
         return not vec_ok(score_vector, len(score_vector))
